@@ -20,7 +20,7 @@ FLOORS = {
     "quick": {"resource_citations": 8000, "years_checked": 4000, "guess_multi": 300, "ambiguous_left": 300,
               "remove_ambiguous_compared": 2000, "remove_ambiguous_dropped": 300,
               "pos:after": 200, "pos:court": 200, "pos:before": 200, "pos:bracket": 200, "pos:range": 200,
-              "pos:none": 100, "pos:inside_citation": 50, "pos:journal_or_statute": 80, "pos:after_reference": 80, "pos:parallel": 200, "year_boundary:low": 100, "year_boundary:high": 100,
+              "pos:none": 100, "pos:inside_citation": 50, "pos:journal_or_statute": 80, "pos:after_reference": 80, "pos:parallel": 120, "pos:same_citation_with_and_without_year": 80, "year_boundary:low": 100, "year_boundary:high": 100,
               "year_rejected": 200, "db_strings_checked": 800},
     "thorough": {"resource_citations": 500000, "guess_multi": 20000, "ambiguous_left": 20000,
                  "remove_ambiguous_compared": 100000, "year_rejected": 10000},
@@ -105,6 +105,11 @@ def year_doc(rng, rec):
             # a name + pin-cite reference that runs into a (possibly ambiguous) citation
             s = f"{P} v. {D}, 1 U.S. 1 (1990). Later {rng.choice([P, D])} at {rng.randint(1, 900)}, {v} {k} {p}"
             rec.count("pos:after_reference")
+        elif form < 0.9:
+            # the same volume, reporter and page twice in one document: once with a year (which may settle the
+            # edition) and once without - equal citations, different guesses
+            s = f"{P} v. {D}, {v} {k} {p} ({y}). Later, {rng.choice([P, D])}'s case, {v} {k} {p}, was followed"
+            rec.count("pos:same_citation_with_and_without_year")
         else:
             k2 = rng.choice(gen.DB.multi) if rng.random() < 0.5 else rng.choice(gen.DB.std)
             s = f"{P} v. {D}, {v} {k} {p}, {v + 1} {k2} {p + 1} ({y})"
